@@ -106,6 +106,23 @@
 (inetd "C" [:in :out :err] "read x; echo \"o:$x\"; echo \"e:$x\" >&2; exit 0")
 (inetd "D" [:out :err] "echo o:D; echo e:D >&2; exit 3")
 
+# --- a pipe whose both ends go to subprocesses ((os/pipe :RW)): producer | consumer; once the parent has closed its copies the
+# consumer must see end of stream when the producer exits (no stray copy of the write end in the consumer or the parent)
+(defn pipeline [n]
+  (def [r w] (os/pipe :RW))
+  (def prod (os/spawn ["/bin/sh" "-c" (string "head -c " n " /dev/zero | tr '\\0' x")] :p {:out w}))
+  (def cons (os/spawn ["/bin/sh" "-c" "wc -c"] :p {:in r :out :pipe}))
+  (ev/close r)
+  (ev/close w)
+  (def out (protect (ev/with-deadline 20 (ev/read (cons :out) :all))))
+  (def ended (out 0))
+  (unless ended (try (os/proc-kill cons) ([e] nil)) (try (os/proc-kill prod) ([e] nil)))
+  (def st [(os/proc-wait prod) (os/proc-wait cons)])
+  (print "pipeline n=" n " ended=" ended " count=" (if ended (string/trim (string (or (out 1) ""))) "-") " status=" (st 0) "," (st 1))
+  (try (os/proc-close prod) ([e] nil))
+  (try (os/proc-close cons) ([e] nil)))
+(each n [0 1 4096 65537 (+ 100000 (math/rng-int rng 400000))] (pipeline n))
+
 (each kind ["tcp" "unix"]
   (each k [1 2 (+ 3 (math/rng-int rng 6)) (+ 10 (math/rng-int rng 40))]
     (burst-loop kind k)
